@@ -266,7 +266,7 @@ def ip_histories(draw):
 
 LAYERS = [
     Layer("ip-dfs", run_ip_case, enumerate=enum_ip, exhaustive=True, space="all event sequences over 13 events to depth 4 (quick) / 5 (thorough) that start with a request, event, replay or reconnect", min_nontrivial=100),
-    Layer("ip-generated", run_ip_case, strategy=ip_histories, n={"quick": 1500, "thorough": 40000}),
+    Layer("ip-generated", run_ip_case, strategy=ip_histories, n={"quick": 4000, "thorough": 60000}),
 ]
 from props.ble_layers import C06_LAYERS as _BLE  # noqa: E402
 LAYERS += _BLE
